@@ -17,3 +17,5 @@ for id in $ids; do
   done
   git -C /repo checkout -- .
 done
+# rebuild the engine against the clean tree, so that /verif/target never keeps a binary built from a changed /repo
+(cd /verif && ./check build > /dev/null 2>&1)
